@@ -37,3 +37,15 @@ func abbrAll(fs []string, keep int) []string {
 	}
 	return out
 }
+
+// upDepth counts how many "up(" wrappers enclose the whole description.
+func upDepth(s string) int {
+	k := 0
+	for strings.HasPrefix(s[3*k:], "up(") && strings.HasSuffix(s[:len(s)-k], ")") {
+		k++
+		if 3*k >= len(s)-k {
+			break
+		}
+	}
+	return k
+}
